@@ -734,13 +734,13 @@ Proof.
   intros Hl Hd. destruct (a_ty a) as [[e t] g] eqn:Ety. destruct (in_dom_lt _ _ _ Hd) as [He [Ht Hg]].
   destruct (types_acc_sound Hacc e t g He Ht Hg) as [a' [Hs [_ [_ Htok]]]].
   unfold good_atom. rewrite Ety. cbn [V_get V_set V_sym RV real_vocab]. split; [exact Hl|]. split; [exact Htok|].
-  split; [apply sym_tok; [exact real_vocab_wf|exact Hd]|]. eauto.
+  split; [apply sym_tok; [exact real_vocab_wf|exact Hd]|]. exists a'. exact Hs.
 Qed.
 
 Lemma real_good_bond na (b : bond RV) : wf_bond RV na b = true -> b_ty b < n_btype -> good_bond RV na b.
 Proof.
   intros Hw Hb. destruct (bonds_ok_sound Hbond _ Hb) as [b' [Hs [_ [_ Htok]]]].
-  unfold good_bond. cbn [V_bget V_bset RV real_vocab]. split; [exact Hw|]. split; [exact Htok|]. eauto.
+  unfold good_bond. cbn [V_bget V_bset RV real_vocab]. split; [exact Hw|]. split; [exact Htok|]. exists b'. exact Hs.
 Qed.
 
 Lemma real_good_mol m : wf_real_mol m = true -> good_mol RV m.
@@ -748,8 +748,8 @@ Proof.
   unfold wf_real_mol, wf_mol. intros H. apply andb_prop in H. destruct H as [H Hb]. apply andb_prop in H.
   destruct H as [H Hd]. apply andb_prop in H. destruct H as [H Hwb]. apply andb_prop in H. destruct H as [Hn Hl].
   rewrite forallb_forall in Hb, Hd, Hwb, Hl. split; [exact Hn|]. split.
-  - apply Forall_forall. intros a Ha. apply real_good_atom; auto.
-  - apply Forall_forall. intros b Hin. apply real_good_bond; auto. apply N.ltb_lt. auto.
+  - apply Forall_forall. intros a Ha. apply real_good_atom; [exact (Hl a Ha)|exact (Hd a Ha)].
+  - apply Forall_forall. intros b Hin. apply real_good_bond; [exact (Hwb b Hin)|]. apply N.ltb_lt. exact (Hb b Hin).
 Qed.
 
 Lemma real_good_ens e : wf_real_ens e = true -> good_ens RV e.
@@ -758,10 +758,10 @@ Proof.
   destruct H as [H Hd]. apply andb_prop in H. destruct H as [H Hlen]. apply andb_prop in H. destruct H as [H Hne].
   apply andb_prop in H. destruct H as [H Hwb]. apply andb_prop in H. destruct H as [Hn Hl].
   rewrite forallb_forall in Hb, Hd, Hwb, Hl, Hlen. split; [exact Hn|]. split; [|split; [|split]].
-  - apply Forall_forall. intros p Hp. apply real_good_atom; cbn [al_atom a_label a_ty]; auto.
-  - apply Forall_forall. intros b Hin. apply real_good_bond; auto. apply N.ltb_lt. auto.
-  - destruct (e_confs e); [discriminate|discriminate].
-  - apply Forall_forall. intros c Hc. apply Nat.eqb_eq. auto.
+  - apply Forall_forall. intros p Hp. apply real_good_atom; cbn [al_atom a_label a_ty]; [exact (Hl p Hp)|exact (Hd p Hp)].
+  - apply Forall_forall. intros b Hin. apply real_good_bond; [exact (Hwb b Hin)|]. apply N.ltb_lt. exact (Hb b Hin).
+  - destruct (e_confs e); [discriminate Hne|discriminate].
+  - apply Forall_forall. intros c Hc. apply Nat.eqb_eq. exact (Hlen c Hc).
 Qed.
 
 Theorem real_roundtrip wq m : wf_real_mol m = true -> read RV wq (write RV wq m) = Some (norm RV wq m).
